@@ -131,6 +131,9 @@ class ImplicitScheme(ApiImmut):
         A = opm(v['operator'])
         n = A.shape[0]
         exact = is_maximal(v['initial_guess']) and (v['tt_solver'] == 'als' or (v['threshold'] <= 1e-10 and v['max_rank'] == np.inf))
+        # (repeats=0: no sweep of the inner solver, every produced state is the - normalised - guess; only the clauses that do not
+        # involve the scheme's equation remain: one state per step, unit norm, arguments unchanged)
+        exact = exact and int(v['repeats']) >= 1
         th = self.theta
         for k, h in enumerate(hs):
             lhs = np.eye(n) - th * h * A
